@@ -4,7 +4,7 @@ import Arc.Generated.C25
 /-! Model driver for C25 (reads ops on stdin, prints one line per op).
 
 ops
-  facts <statPartFallback> <deleteRemovesPart> <presenceNeedsFinal>      (0/1; must equal the generated facts)
+  facts <statPartFallback> <deleteRemovesPart> <presenceNeedsFinal> <promoteAfterVerdict>   (0/1; must equal the generated facts)
   new <contentHex> <maxAttempts> <finalHex|none> <partHex|none>          (new manifest file + replica state)
   proc                                                                    (a new processEntry call)
   att <o1,o2,…|->                                                         (one attempt; one outcome per candidate peer)
@@ -56,20 +56,24 @@ def stStr : St → String
 def natsStr (l : List Nat) : String :=
   if l.isEmpty then "-" else ",".intercalate (l.map toString)
 
-def render (s : PState) : String :=
-  s!"final={fileStr s.rep.final} part={fileStr s.rep.part} pulled={s.cnt.pulled} skipped={s.cnt.skippedLocal} failed={s.cnt.failed} cksum={s.cnt.cksum} badoff={s.cnt.badOffset} nopeer={s.cnt.noPeer} offs={natsStr s.offs} st={stStr s.st}"
+def delsStr (l : List (Option Bytes)) : String :=
+  if l.isEmpty then "-" else ",".intercalate (l.map fileStr)
+
+/-- `dels` = what each cleanup `Delete` of the attempt found at the final path -/
+def render (s : PState) (dels : List (Option Bytes)) : String :=
+  s!"final={fileStr s.rep.final} part={fileStr s.rep.part} pulled={s.cnt.pulled} skipped={s.cnt.skippedLocal} failed={s.cnt.failed} cksum={s.cnt.cksum} badoff={s.cnt.badOffset} nopeer={s.cnt.noPeer} offs={natsStr s.offs} dels={delsStr dels} st={stStr s.st}"
 
 def bit? (s : String) : Option Bool :=
   if s == "1" then some true else if s == "0" then some false else none
 
 def stepC25 (s : DS) (fs : List String) : DS × String :=
   match fs with
-  | ["facts", a, b, c] =>
-    match bit? a, bit? b, bit? c with
-    | some a, some b, some c =>
-      let f : Facts := ⟨a, b, c⟩
+  | ["facts", a, b, c, d] =>
+    match bit? a, bit? b, bit? c, bit? d with
+    | some a, some b, some c, some d =>
+      let f : Facts := ⟨a, b, c, d⟩
       if f = Arc.Generated.C25.facts then ({ s with f := f }, "ok") else (s, "facts-differ-from-generated")
-    | _, _, _ => (s, "bad-op")
+    | _, _, _, _ => (s, "bad-op")
   | ["new", c, m, fi, pa] =>
     match bytes? c, nat? m, file? fi, file? pa with
     | some c, some m, some fi, some pa =>
@@ -82,7 +86,8 @@ def stepC25 (s : DS) (fs : List String) : DS × String :=
       if ps.st ≠ .running then (s, "no-attempt-in-model")
       else
         let ps' := attemptStep (fun (b : Bytes) => b) s.f s.content s.maxA ps os
-        ({ s with ps := some ps', rep := ps'.rep, cnt := ps'.cnt }, render ps')
+        let dels := attemptDels (fun (b : Bytes) => b) s.f s.content ps os
+        ({ s with ps := some ps', rep := ps'.rep, cnt := ps'.cnt }, render ps' dels)
     | _, _ => (s, "bad-op")
   | _ => (s, "bad-op")
 
